@@ -197,6 +197,21 @@ KANI_UNITS["vk_uf"] = {
                 "SecondaryMap is outside CBMC's reach"],
 }
 
+KANI_UNITS["vk_tomb"] = {
+    "mode": "dep", "crate": "contracts/kani/vk_tomb", "props": ["C05"],
+    "gen": [("src/tombstone.rs.in", "src/tombstone.rs")],
+    "under_contract": r"RoaringTombstoneSet",
+    "what": "lattices/src/tombstone.rs: struct RoaringTombstoneSet and all of its impls (new, contains, insert, TombstoneSet::{contains, union_with}, "
+            "Extend::extend, Len::len, IntoIterator, FromIterator) spliced verbatim over a contract double of roaring::RoaringTreemap, against the "
+            "TombstoneSet contract the tombstone merge harnesses assume (extend/from_iter add exactly the offered keys in any order and with "
+            "re-deliveries, union_with is union and returns the old length, len is the cardinality, into_iter yields each key once)",
+    "instantiation": "u64 keys from a 4-value domain spread over both 32-bit halves",
+    "bounded": {r".*": "<= 2 keys present, <= 2 keys offered (havoc size_hint)"},
+    "trusted": ["contracts/kani/vk_tomb/shims/roaring: CONTRACT DOUBLE of roaring::RoaringTreemap (ascending array of <= 4 values; insert / remove / "
+                "contains / len / min / max / push / append / extend / from_iter / | / |= / iter / into_iter as documented in roaring 0.11.4, including "
+                "append's consumption of the first out-of-order value); the real treemap is outside CBMC's reach"],
+}
+
 KANI_UNITS["vk_var"] = {
     "mode": "dep", "crate": "contracts/kani/vk_var", "props": ["C10"],
     "gen": [("src/extracted.rs.in", "src/extracted.rs")],
@@ -280,9 +295,11 @@ PROPS["C13"] = [("kani", "ov_pipes", ["symmetric_hash_join"], ("quick", "thoroug
 PROPS["C10"] = [("kani", "vk_var", ["harness::column_", "hash_harness::hash_set_contract", "hash_harness::counted_set_contract"], ("quick",)),
                 ("kani", "vk_var", ["harness::column_", "harness::slow_", "hash_harness::hash_set_contract", "hash_harness::counted_set_contract", "hash_harness::slow_"], ("thorough",))]
 
-PROPS["C05"] = [("kani", "vk_lat", ["coll3::tombstone_set", "coll3::tombstone_map_merge_one_entry"], ("quick",)),
+PROPS["C05"] = [("kani", "vk_tomb", ["harness::roaring_"], ("quick", "thorough")),
+                ("kani", "vk_lat", ["coll3::tombstone_set", "coll3::tombstone_map_merge_one_entry"], ("quick",)),
                 ("kani", "vk_lat", ["coll3::tombstone"], ("thorough",))]
-PROPS["C06"] = [("kani", "vk_lat", ["coll3::atomize_set_union", "coll3::atomize_map_union_any_value_iterator", "coll3::atomize_with_bot_shape_none"], ("quick",)),
+PROPS["C06"] = [("kani", "vk_lat", ["coll3::atomize_set_union", "coll3::atomize_map_union_any_value_iterator", "coll3::atomize_with_bot_shape_none",
+                                    "coll3::atomize_with_bot_any_inner_iterator", "coll3::atomize_with_top_any_inner_iterator"], ("quick",)),
                 ("kani", "vk_lat", ["coll3::atomize"], ("thorough",))]
 PROPS["C07"] = [("verus", "lat_pair"),
                 ("kani", "vk_lat", ["coll3::cartesian_product_is_product", "coll3::keyed_bimorphism_"], ("quick",)),
